@@ -39,7 +39,9 @@ class ImplWorld:
         self.held = {}
         self.weak = {}
         self.next = 0
-        gc.collect()
+        self.resets = getattr(self, 'resets', 0) + 1
+        if self.resets % 500 == 0:
+            gc.collect()
         for kind in KINDS:
             for i, c in enumerate(self.classes[kind]):
                 self.clear(c)
